@@ -8,8 +8,8 @@ from typing import Dict, List, Optional, Set
 
 from ..effects import Analyzer, _walk_local
 from ..interp import Interp, PyFunc, Raised, Unsupported
-from ..poly import Poly
-from ..model import AnalysisError, FuncInfo, Model, src, walk_no_nested
+from ..poly import Poly, Rat
+from ..model import staged, AnalysisError, FuncInfo, Model, src, walk_no_nested
 
 PID = "C05"
 LEVEL = "other"
@@ -485,20 +485,130 @@ def _r3(model, rep):
              "a matrix right-hand side is not reduced consistently "
              "(rows D, diag=0, overwrite forwarded)", fn.lineno)
     fn = model.func(U, "penalize")
-    stores = [n for n in walk_no_nested(fn.node) if isinstance(n, ast.Assign)
-              and isinstance(n.targets[0], ast.Subscript)]
-    dD = [n for n in stores if src(n.targets[0]) == "d[D]"]
-    bD = [n for n in stores if src(n.targets[0].value) == "bout"]
-    _verdict(rep, R3, len(dD) == 1 and src(dD[0].value).replace(" ", "")
-             in ("1.0/epsilon", "1/epsilon"), "penalize:diagonal",
-             "d[D] = 1/epsilon", "penalize",
-             "the penalised diagonal is not 1/epsilon at D", fn.lineno)
-    _verdict(rep, R3, len(bD) == 1 and src(bD[0].targets[0].slice) == "D"
-             and src(bD[0].value).replace(" ", "") == "x[D]/epsilon",
-             "penalize:rhs", "bout[D] = x[D] / epsilon", "penalize",
-             "the penalised right-hand side is not x[D]/epsilon at D",
-             fn.lineno)
+    _penalize_run(model, rep, fn)
     _penalty_is_scalar(model, rep)
+
+
+def _penalize_run(model, rep, fn):
+    """symbolic run of penalize with an explicit epsilon: what is stored
+    where, in which object"""
+    R3 = "C05-R3"
+    eps = Poly.sym("eps")
+
+    class Vec:
+        skv_isarray = True
+        skv_types = ("numpy.ndarray",)
+
+        def __init__(self, name, fresh):
+            self.name, self.fresh, self.stores = name, fresh, []
+
+        def skv_getitem(self, ix):
+            return ("at", self.name, ix)
+
+        def skv_setitem(self, ix, v):
+            self.stores.append((ix, v))
+
+        def skv_getattr(self, nm):
+            if nm == "copy":
+                return PyFunc(lambda a, k, n: Vec("copy of " + self.name,
+                                                  True))
+            raise Unsupported(f"{self.name}.{nm}")
+
+    class Mat:
+        skv_types = ("scipy.sparse.spmatrix",)
+
+        def __init__(self, name, fresh):
+            self.name, self.fresh, self.diag = name, fresh, None
+            self.d = Vec("diag of " + name, True)
+
+        def skv_getattr(self, nm):
+            if nm == "copy":
+                return PyFunc(lambda a, k, n: Mat("copy of " + self.name,
+                                                  True))
+            if nm == "diagonal":
+                return PyFunc(lambda a, k, n: self.d)
+            if nm == "setdiag":
+                def sd(a, k, n):
+                    self.diag = a[0]
+                return PyFunc(sd)
+            raise Unsupported(f"{self.name}.{nm}")
+
+    class Ix:
+        skv_isarray = True
+
+        def __init__(self, name):
+            self.name = name
+
+        def __repr__(self):
+            return self.name
+    DS, IS = Ix("D"), Ix("I")
+
+    def quot(v):
+        """(numerator description, denominator) of x / eps spelled anyhow"""
+        if isinstance(v, tuple) and v and v[0] == "quot":
+            return v[1], v[2]
+        return None
+    for ow in (False, True):
+        A, b, x = Mat("A", False), Vec("b", False), Vec("x", False)
+
+        class XAt:
+            """x[D] / eps"""
+            pass
+        x.skv_getitem = None
+
+        class XV(Vec):
+            def skv_getitem(self, ix):
+                return XD(ix)
+
+        class XD:
+            skv_isarray = True
+
+            def __init__(self, ix):
+                self.ix = ix
+
+            def skv_binop(self, op, other, reflected):
+                if isinstance(op, ast.Div) and not reflected:
+                    return ("quot", self.ix, other)
+                if isinstance(op, ast.Mult):
+                    o = other
+                    if isinstance(o, Rat) and o.n == Poly.const(1):
+                        return ("quot", self.ix, o.d)
+                    if isinstance(o, tuple) and o and o[0] == "recip":
+                        return ("quot", self.ix, o[1])
+                raise Unsupported("arithmetic on x[D]")
+        x = XV("x", False)
+        try:
+            it = Interp(model)
+            it.overrides[f"{U}._init_bc"] = PyFunc(
+                lambda a, k, n: (a[1], a[2], IS, DS))
+            r = it.call(fn, [A, b, x, None, Ix("Dgiven"), eps, ow], {})
+        except (Unsupported, Raised) as e:
+            raise AnalysisError(f"penalize(overwrite={ow}): {e}")
+        if not (isinstance(r, tuple) and len(r) == 2):
+            raise AnalysisError("penalize: (matrix, rhs) not returned")
+        Aout, bout = r
+        tag = f"[overwrite={ow}]"
+        okA = isinstance(Aout, Mat) and Aout.fresh != ow and \
+            Aout.diag is Aout.d and len(Aout.d.stores) == 1 and \
+            Aout.d.stores[0][0] is DS
+        val = Aout.d.stores[0][1] if okA else None
+        okv = okA and ((isinstance(val, Rat) and val.n * eps == val.d)
+                       or (isinstance(val, Poly) and False))
+        _verdict(rep, R3, bool(okv), "penalize:diagonal" + tag,
+                 "diagonal at D set to 1/epsilon on "
+                 + ("the operand itself" if ow else "a copy"), "penalize",
+                 f"the penalised diagonal is not 1/epsilon at D written "
+                 f"back to {'A' if ow else 'a copy of A'} (got {val!r})",
+                 fn.lineno)
+        okb = isinstance(bout, Vec) and bout.fresh != ow and \
+            len(bout.stores) == 1 and bout.stores[0][0] is DS
+        q = quot(bout.stores[0][1]) if okb else None
+        okq = q is not None and q[0] is DS and q[1] == eps
+        _verdict(rep, R3, bool(okq), "penalize:rhs" + tag,
+                 "rhs at D set to x[D]/epsilon on "
+                 + ("the operand itself" if ow else "a copy"), "penalize",
+                 f"the penalised right-hand side is not x[D]/epsilon at D "
+                 f"of {'b' if ow else 'a copy of b'}", fn.lineno)
 
 
 def _rank(e, ranks) -> Optional[int]:
@@ -752,10 +862,8 @@ def run(model: Model, rep, tier: str) -> None:
     rep.rule("C05-R4", "every 'a[idx] op= v' uses a provably repeat-free "
              "idx (lost-update hazard)")
     an = Analyzer(model)
-    _r1(model, an, rep)
-    _r2(model, rep)
-    _r3(model, rep)
-    _r4(model, rep)
+    staged(lambda: _r1(model, an, rep), lambda: _r2(model, rep),
+           lambda: _r3(model, rep), lambda: _r4(model, rep))
     rep.require_min("C05-R1", 30)
     rep.require_min("C05-R2", 7)
     rep.require_min("C05-R3", 12)
